@@ -822,7 +822,7 @@ def gen_case(ctx):
 
 
 def run(ctx):
-    n = ctx.budget(110, 2500)
+    n = ctx.budget(110, 1200)
     corpus = os.path.join(os.path.dirname(os.path.dirname(os.path.dirname(os.path.abspath(__file__)))), 'corpus', 'C16')
     cases = []
     if os.path.isdir(corpus):
